@@ -4,6 +4,7 @@ import (
 	"bytes"
 	"fmt"
 	"strings"
+	"time"
 )
 
 // runSessions executes render cases on the real engine and on the Lean interpreter model (on the
@@ -13,8 +14,14 @@ func runSessions(r *Run, cases []*RCase, what func(c *RCase, i int, g, m string)
 	var lines []string
 	var live []*RCase
 	for _, c := range cases {
-		c.Run()
+		if !runWatched(r, c) {
+			break
+		}
 		if c.Panic != "" {
+			if panicInDependency(c.Panic) {
+				r.Dist["panic_in_dependency"]++ // not dyntpl's own code (C13 counts these separately)
+				continue
+			}
 			r.Violate("panic "+firstLine(c.Panic)+" tpl="+c.Tpls[len(c.Tpls)-1].Src, "panic in dyntpl", c.Describe())
 			continue
 		}
@@ -82,6 +89,41 @@ func runSessions(r *Run, cases []*RCase, what func(c *RCase, i int, g, m string)
 		}
 	}
 }
+
+// runWatched runs a session under a watchdog. A render that does not return is a finding of its own
+// (no tree the generator produces needs more than milliseconds); the goroutine cannot be stopped, so the
+// run is cut short: what was collected so far is judged, the result file is written and the process exits.
+func runWatched(r *Run, c *RCase) bool {
+	if r.aborted {
+		return false
+	}
+	done := make(chan struct{})
+	go func() {
+		defer close(done)
+		c.Run()
+	}()
+	select {
+	case <-done:
+		return true
+	case <-time.After(sessionTimeout):
+		r.aborted = true
+		d := map[string]any{"note": "the session did not finish; its state is not read (the render is still running)"}
+		tp := []map[string]any{}
+		for _, t := range c.Tpls {
+			tp = append(tp, map[string]any{"key": t.Key, "source": t.Src, "keepFmt": t.KeepFmt})
+		}
+		d["templates"] = tp
+		ops := []string{}
+		for _, o := range c.Ops {
+			ops = append(ops, o.Desc())
+		}
+		d["ops"] = ops
+		r.Violate("timeout tpl="+c.Tpls[len(c.Tpls)-1].Src, fmt.Sprintf("a render session did not return within %v (unbounded computation or runaway recursion)", sessionTimeout), d)
+		return false
+	}
+}
+
+const sessionTimeout = 20 * time.Second
 
 func firstLine(s string) string {
 	if i := strings.IndexByte(s, '\n'); i >= 0 {
